@@ -672,6 +672,11 @@ package module
 //@ func MatchPrefixPatterns
 //@   pure
 //@   ensures [C06] prefix_glob_definition: result == MPP(globs, target)
+//@   # the documentation promises more: "whether any path prefix of target matches one of the glob patterns (as defined
+//@   # by path.Match)".  Stated for a list of one glob without trailing slash: the whole target or what precedes one
+//@   # of its slashes matches.  Does not hold: a glob is only tried against the prefix with as many slashes as the glob
+//@   # text has, and a character class can match a slash (F-C06c)
+//@   ensures [C06, known F_C06c] doc_any_prefix: !strings.Contains(globs, ",") && globs != "" && !strings.HasSuffix(globs, "/") ==> (result == (path.Match_r0(globs, target) || (exists i int :: 0 <= i && i < len(target) && target[i] == '/' && path.Match_r0(globs, target[:i]))))
 //@   loop 0:
 //@     invariant MPP(old(globs), target) == MPP(globs, target)
 //@     decreases len(globs)
